@@ -633,6 +633,20 @@ def _process_block(P, f, stmts, new, state):
             elif isinstance(s.targets[0], ast.Attribute):
                 out.append(ast.copy_location(ast.Assign(targets=[s.targets[0]], value=ast.copy_location(ast.Name(id=x, ctx=ast.Load()), s)), s))
             continue
+        # `yield from helper(..)` as a statement, helper a new plain generator function: the helper's body (its yields included) runs in place
+        if isinstance(s, ast.Expr) and isinstance(s.value, ast.YieldFrom) and isinstance(s.value.value, ast.Call):
+            c_ = s.value.value
+            t_ = _resolve(P, f, c_)
+            if isinstance(t_, str) and t_ in new and isinstance(P.funcs[t_].node, ast.FunctionDef) \
+                    and any(isinstance(x, (ast.Yield, ast.YieldFrom)) for x in _walk_own(P.funcs[t_].node.body)) \
+                    and not any(isinstance(x, ast.Call) and isinstance(_resolve(P, f, x), str) and _resolve(P, f, x) in new for a_ in c_.args for x in ast.walk(a_)):
+                state['n'] += 1
+                exp = _expand(P, P.funcs[t_], c_, None, state['n'], s)
+                if exp is not None:
+                    exp = _process_block(P, P.funcs[t_], exp, new - {t_}, state) if state['depth'] < 3 else exp
+                    out += exp
+                    state['expanded'].append((f.qual, t_))
+                    continue
         pre = []
         for _round in range(6):
             hit = None
